@@ -78,7 +78,7 @@ fn run_scenario(sc: &Scenario, obs: &Arc<Mutex<Obs>>) {
                         out.extend_from_slice(&buf[..n]);
                     }
                 } else {
-                    let mut r = LZIPReaderMT::new(Cursor::new(sc.input.clone()), sc.workers)?;
+                    let mut r = LZIPReaderMT::new(BudgetCursor::new(sc.input.clone(), 2_000_000), sc.workers)?;
                     loop {
                         if let Some(n) = sc.reads_before_drop {
                             if calls >= n {
@@ -115,7 +115,11 @@ fn run_scenario(sc: &Scenario, obs: &Arc<Mutex<Obs>>) {
                         o.unexpected_ok = true
                     }
                 }
-                (None, Err(_)) => {}
+                (None, Err(e)) => {
+                    if e.to_string().contains("call-budget-exhausted") {
+                        o.unexpected_err = Some("no progress: the reader made more than 2000000 read/seek calls on a small corrupt input".into());
+                    }
+                }
             }
         }
         _ => {
@@ -232,6 +236,14 @@ fn scenarios(prop: &str, rng: &mut Rng, thorough: bool) -> Vec<Scenario> {
                 }
                 let parts = { let (_, p) = gen_partition(rng, data.len()); p };
                 v.push(Scenario { name: format!("lzma2w-dropnofinish-{size}-w{workers}"), kind: "lzma2w", input: data.clone(), writes: parts.clone(), finish: false, ..base.clone() });
+                // several units, flush (every worker idle), exactly one more unit, then drop without finish: the
+                // queue is non-empty at close() while other workers still sleep
+                if data.len() >= 2 * unit as usize + 10 {
+                    let first = data.len() - unit as usize - 1;
+                    for k in ["lzma2w", "lzipw"] {
+                        v.push(Scenario { name: format!("{k}-flush-one-drop-{size}-w{workers}"), kind: k, input: data.clone(), writes: vec![first, unit as usize + 1], finish: false, flush_at: Some(0), ..base.clone() });
+                    }
+                }
                 v.push(Scenario { name: format!("lzipw-dropnofinish-{size}-w{workers}"), kind: "lzipw", input: data.clone(), writes: parts, finish: false, ..base.clone() });
             }
             if prop == "C09" || prop == "C10" {
@@ -249,6 +261,23 @@ fn scenarios(prop: &str, rng: &mut Rng, thorough: bool) -> Vec<Scenario> {
                     let mut m = lz.clone(); let l = m.len(); m[l - 20] ^= 1; muts.push(("crcflip".into(), m, "lzipr"));
                 }
                 muts.push(("empty".into(), vec![], "lzipr"));
+                // a zero member_size in the trailer of a member that is not the last one (the backward scan must not stall)
+                {
+                    let mut ends = vec![];
+                    let mut end = lz.len();
+                    while end >= 26 {
+                        let ms = u64::from_le_bytes(lz[end - 8..end].try_into().unwrap()) as usize;
+                        if ms == 0 || ms > end { break; }
+                        ends.push(end);
+                        end -= ms;
+                    }
+                    if ends.len() >= 2 {
+                        let e = ends[ends.len() - 1];
+                        let mut m = lz.clone();
+                        for b in &mut m[e - 8..e] { *b = 0; }
+                        muts.push(("member-size-zero".into(), m, "lzipr"));
+                    }
+                }
                 for (mn, m, k) in muts {
                     // raw LZMA2 carries no checksum: a flipped bit (e.g. inside a stored chunk) may decode
                     let may_ok = k == "lzma2r" && mn.starts_with("flip");
@@ -286,10 +315,13 @@ fn main() {
     let outdir = &args[4];
     let mut rng = Rng::new(seed ^ fnv(prop.as_bytes()));
     let mut rep = Report::new(prop, "each case = (scenario, scheduler, schedule seed); scenario = MT type x input x worker count x caller history; executions explored by shuttle's random and PCT schedulers; non-trivial = scenario with data; distinct = distinct scenario");
-    let iters: usize = if thorough { 3000 } else { 150 };
+    // a search run (the check re-invokes the engine with seeds >= 1000 after a broken obligation) explores more schedules
+    let base_iters: usize = if thorough { 3000 } else if seed >= 1000 { 1500 } else { 150 };
     let scs = scenarios(prop, &mut rng, thorough);
     install_quiet_panic_hook();
     for sc in &scs {
+        // scenarios that depend on a narrow window (close() racing a just-woken worker) get more schedules
+        let iters = if sc.name.contains("flush-one-drop") { base_iters * 8 } else { base_iters };
         for sched in ["random", "pct"] {
             let obs = Arc::new(Mutex::new(Obs::default()));
             let sc2 = sc.clone();
